@@ -301,21 +301,23 @@ def _mk_seq_any_tagged(**s):
 # SET whose untagged CHOICE member has EXPLICITly tagged alternatives: canonical order follows the outermost tag actually sent
 SET_CHX = T("SET", comps=[("b", OCTS.tagged(("I", "C", 3)), "req", None),
                           ("c", T("CHOICE", comps=[("x", INT.tagged(("E", "C", 5)), "req", None), ("y", BOOL.tagged(("I", "C", 1)), "req", None),
-                                                   ("z", UTF8, "req", None), ("w", NULL.tagged(("E", "A", 2)), "req", None)]), "req", None),
+                                                   ("z", UTF8, "req", None), ("w", NULL.tagged(("E", "A", 2)), "req", None),
+                                                   ("v", T("CHOICE", comps=[("p", INT, "req", None), ("q", BOOL, "req", None)]).tagged(("E", "C", 6)), "req", None)]), "req", None),
                           ("e", INT.tagged(("E", "C", 4)), "opt", None)],
-            name="SET{b [3]I OCTS,c CHOICE{x [5]E INT,y [1]I BOOL,z UTF8,w [A2]E NULL},e [4]E INT?}")
+            name="SET{b [3]I OCTS,c CHOICE{x [5]E INT,y [1]I BOOL,z UTF8,w [A2]E NULL,v [6]E CHOICE{p INT,q BOOL}},e [4]E INT?}")
 
 
 def _mk_set_chx(**s):
     w = s["w"]
-    c = ("x", s["i0"]) if w == 0 else ("y", s["f0"]) if w == 1 else ("z", utf8_of([s["c0"]])) if w == 2 else ("w", None)
+    c = (("x", s["i0"]) if w == 0 else ("y", s["f0"]) if w == 1 else ("z", utf8_of([s["c0"]])) if w == 2 else ("w", None) if w == 3
+         else ("v", ("p", s["i0"]) if s["f0"] else ("q", s["he"])))
     av = {"b": bytes([s["o0"]][: s["n"]]), "c": c}
     if s["he"]:
         av["e"] = s["i1"]
     return av
 
 
-P_SET_CHX = {"w": I(0, 3), "i0": SMALL, "f0": B, "c0": I(0, 0x7FF), "o0": BYTE, "n": I(0, 1), "he": B, "i1": I(0, 1)}
+P_SET_CHX = {"w": I(0, 4), "i0": SMALL, "f0": B, "c0": I(0, 0x7FF), "o0": BYTE, "n": I(0, 1), "he": B, "i1": I(0, 1)}
 
 # several long-form (>= 31) tags of the same class inside one value, same number in primitive and constructed form
 SEQ_HITAGS = T("SEQ", comps=[("a", INT.tagged(("I", "C", 40)), "req", None), ("b", INT.tagged(("I", "C", 1000)), "opt", None),
